@@ -133,3 +133,17 @@ package consensus
 //@   requires cs.Validators != nil && (forall i int :: 0 <= i && i < len(cs.Validators.Validators) ==> cs.Validators.Validators[i] != nil)
 //@   modifies *
 //@   atstore RoundState.Proposal requires [polRoundBelowRound] new != nil ==> new.POLRound == 0 || new.POLRound < new.Round
+
+// ---------------------------------------------------------------- C19: evidence made by consensus carries the block's time
+// The time of a block at height H is the median of the last commit weighted by the validators of H-1
+// (validateBlock checks exactly that: C03 medianOverPreviousSet). Evidence created for a double vote
+// must carry the same time, so it takes the median over the LAST validators, and it names the current
+// validator set as the set the accused belongs to.
+//@ func (cs *ConsensusState) tryAddVote(vote *types.Vote, peerID p2p.ID) (added bool, err error)
+//@   for C19
+//@   requires cs != nil
+//@   modifies *
+//@   opt noinline
+//@   opt assumecallreqs
+//@   atcall MedianTime requires [medianOverThePreviousSet] validators == cs.LastValidators
+//@   atcall NewDuplicateVoteEvidence requires [accusedLookedUpInTheCurrentSet] valSet == cs.Validators
